@@ -23,6 +23,14 @@ EXTRA = [
     ('let v = 5\nrule r0 {\n  %v is_string <<lit>>\n  %v == 6 <<cmp>> or\n  %v in [1, 2] <<inlist>>\n}\n', {"a": 1}),
     ('rule r0 {\n  a.b.c == 1 <<missing>>\n  a {\n    b == 2 <<inner>>\n  }\n  zz !empty {\n    q exists\n  }\n}\n', {"a": {"b": 1}}),
     ('rule r0 {\n  some l[*] == 9 <<some>>\n  l[*] in [1, 2] <<all in>>\n}\nrule r1 when r0 {\n  a exists\n}\n', {"l": [1, 2, 3], "a": 1}),
+    # files in which every rule is skipped / every rule passes / one of each
+    ('rule s0 when zz exists {\n  a exists\n}\n', {"a": 1}),
+    ('rule s0 when zz exists {\n  a exists\n}\nrule s1 {\n  zz[ k == 1 ].v == 2\n}\nrule s2 when s0 {\n  a exists\n}\n', {"a": 1}),
+    ('rule p0 {\n  a exists\n}\nrule s0 when zz exists {\n  a exists\n}\n', {"a": 1}),
+    # emptiness tests on a variable with several values of which some are empty, in both polarities and under a prefix not
+    ('let tags = Resources.*.Tags\nrule e0 {\n  %tags !empty <<tags>>\n}\nrule e1 {\n  not %tags empty <<no tags>>\n}\nrule e2 {\n  %tags empty <<has tags>>\n}\nrule e3 {\n  not %tags !empty <<nn>>\n}\n'
+     'rule e4 {\n  some %tags !empty <<some>>\n  not some %tags empty <<ns>>\n}\n', {"Resources": {"a": {"Tags": [1]}, "b": {"Tags": []}, "c": {"Tags": [2, 3]}, "d": {"Other": 1}}}),
+    ('rule f0 {\n  not Resources.*[ Tags exists ] empty <<flt>>\n  Resources.*[ Tags !empty ].Tags !empty <<t>>\n  not Resources.*[ Other exists ].Tags !empty <<o>>\n}\n', {"Resources": {"a": {"Tags": [1]}, "b": {"Tags": []}, "d": {"Other": 1}}}),
 ]
 
 
@@ -298,6 +306,12 @@ def run_combine(ctx, n):
             ctx.failing('the report for %d rules files is not the union of the individual reports' % len(singles),
                         dict(info, combined={'status': allr['status'], 'compliant': allr['compliant'], 'not_applicable': allr['not_applicable'], 'nc': names_nc(allr)},
                              singles=[{'status': s['status'], 'compliant': s['compliant'], 'not_applicable': s['not_applicable'], 'nc': names_nc(s)} for s in singles]), found=True)
+        # the statement itself, independent of the single runs: every rule of every file is in exactly one of the three lists
+        defined = set(re.findall(r'^rule\s+([A-Za-z_][A-Za-z0-9_]*)\s*(?:when\b|\{)', '\n'.join(sc['rules']), re.M))
+        listed = set(allr['compliant']) | set(allr['not_applicable']) | set(names_nc(allr))
+        if defined != listed:
+            ctx.failing('rules %s were evaluated but appear in none of compliant / not_applicable / not_compliant (listed and not defined: %s)'
+                        % (sorted(defined - listed), sorted(listed - defined)), dict(info, combined={'compliant': allr['compliant'], 'not_applicable': allr['not_applicable'], 'nc': names_nc(allr)}), found=True)
         want = 'FAIL' if allr['not_compliant'] else ('PASS' if allr['compliant'] else 'SKIP')
         if allr['status'] != want:
             ctx.failing('combined file status %s, the lists require %s' % (allr['status'], want), info, found=True)
